@@ -44,13 +44,16 @@ def one(mu, base):
     copy_repo(d)
     p = os.path.join(d, mu['file'])
     s = open(p).read()
-    n = s.count(mu['old'])
-    if n != 1:
-        shutil.rmtree(d, ignore_errors=True)
-        return {'id': mu['id'], 'ok': False, 'why': 'pattern matches %d times in %s' % (n, mu['file'])}
-    open(p, 'w').write(s.replace(mu['old'], mu['new']))
+    edits = [(mu['old'], mu['new'])] + list(mu.get('more', []))
+    for old, new in edits:
+        n = s.count(old)
+        if n != 1:
+            shutil.rmtree(d, ignore_errors=True)
+            return {'id': mu['id'], 'ok': False, 'why': 'pattern matches %d times in %s' % (n, mu['file'])}
+        s = s.replace(old, new)
+    open(p, 'w').write(s)
     rc, out = run_check(d, mu['prop'], None, base)
-    fired = re.findall(r'^  rule (\S+) at (\S+) \[([^\]]*)\]', out, re.M)
+    fired = re.findall(r'^  rule (\S+) at (\S+) \[(.*?)\]: ', out, re.M)
     hit = [f for f in fired if f[0] == mu['rule'] and mu['key'] in f[2]]
     others = sorted({'%s:%s' % (f[0], f[2]) for f in fired if f not in hit})
     res = {'id': mu['id'], 'prop': mu['prop'], 'rule': mu['rule'], 'rc': rc, 'ok': bool(hit) and rc == 1,
